@@ -507,6 +507,11 @@ class Norm:
             st = self.state(a0)
             if isinstance(st, tuple) and st[0] == "MACST":
                 return ("MAC", st[1], st[2], self.cat(st[3]))
+        if re.search(r" as (Mac|Digest|Update)>::chain_update(::<.*>)?$|^digest::Update::chain$", name) and len(args) == 2:
+            # by-value builder form of update(): same absorbed data, the state is returned instead of mutated in place
+            st = self.state(a0)
+            if isinstance(st, tuple) and st and st[0] in ("MACST", "HST"):
+                return self.absorb(st, args[1], name)
         if re.search(r" as (Digest>::new|Default>::default)$", name) and alg:
             return ("HST", alg, ())
         if re.search(r" as (Digest>::finalize|FixedOutput>::finalize_fixed)$", name):
@@ -810,7 +815,7 @@ class Norm:
             return ("SIG", "ECDSA-P384-SHA384", ("p384-sk", a0), self.digestmsg(args[1]), None)
         if name == "ecdsa::Signature::<NistP384>::normalize_s":
             return ("LOWS?", a0)
-        if name.endswith("Option::<Signature<NistP384>>::unwrap_or"):
+        if name.endswith("Option::<Signature<NistP384>>::unwrap_or") or name == "Option::unwrap_or":
             x, d = args
             if isinstance(x, tuple) and x[0] == "LOWS?" and x[1] == d:
                 return ("SIG-lowS", d)
